@@ -385,9 +385,12 @@ def check_atom_tables(ctx, rule):
     dup = sorted({t for t, i in pairs if sum(1 for t2, _ in pairs if t2 == t) > 1})
     if bad:
         t, i = bad[0]
-        ctx.bad(rule, 'atom-intern-tables', 'Atom::new(%r) is interned as entry %d of CACHED_ATOMS, which holds %r: every occurrence of the atom %r (decoded or constructed) silently becomes %r'
-                % (t, i, names[i] if 0 <= i < len(names) else '<out of range>', t, names[i] if 0 <= i < len(names) else '?'), ctx.where(ctx.P.B('erltf::types::COMMON_ATOMS')),
-                key='TABLE:erltf::types::COMMON_ATOMS:%s->%d' % (t, i))
+        if not (0 <= i < len(names)):
+            ctx.bad(rule, 'atom-intern-tables', 'COMMON_ATOMS sends %r to entry %d of CACHED_ATOMS, which has only %d entries: Atom::new(%r) - i.e. decoding or constructing that atom - indexes out of bounds and panics'
+                    % (t, i, len(names), t), ctx.where(ctx.P.B('erltf::types::COMMON_ATOMS')), key='TABLE:erltf::types::COMMON_ATOMS:%s->%d' % (t, i))
+        else:
+            ctx.bad(rule, 'atom-intern-tables', 'Atom::new(%r) is interned as entry %d of CACHED_ATOMS, which holds %r: every occurrence of the atom %r (decoded or constructed) silently becomes %r'
+                    % (t, i, names[i], t, names[i]), ctx.where(ctx.P.B('erltf::types::COMMON_ATOMS')), key='TABLE:erltf::types::COMMON_ATOMS:%s->%d' % (t, i))
     elif dup:
         ctx.bad(rule, 'atom-intern-tables', 'COMMON_ATOMS lists %s twice' % dup, key='TABLE:erltf::types::COMMON_ATOMS:duplicate')
     else:
